@@ -192,6 +192,29 @@ CLAIMS = {
         note="Trusted: the interpreter's store log (all attribute stores go through setattr). Setter sequences of length one or two per "
              "field; longer histories follow because every setter ends in the same recomputation from current field values.",
         technique="ast-based abstract interpretation (gated terms) + normal-form comparison mutated-vs-fresh + store-log alias analysis"),
+    "C09": dict(
+        text="Static analysis: every catalogued decoder of a self-delimiting unit (space packet header, PUS TC/TM and wrappers, CDS "
+             "timestamp, request id, packet-field enum, CFDP header, the eight PDUs and the factory, TLV/LV and concrete TLVs, USLP "
+             "headers, data field and frame) is abstractly interpreted (symbolically or by finite case analysis over its structure "
+             "octets); for every read of the entry buffer the absolute end - or the end of a closed slice it goes through - is "
+             "proven <= the declared length N from the facts at the read plus the facts of the normal return; no heap cell "
+             "reachable from the decoded object may mention len(buffer) or an open-ended slice of the buffer. Refutations carry a "
+             "concrete octet string. Per-format extent equalities are decided in C02/C03/C06/C07/C08/C15/C17.",
+        note="Trusted: the interpreter's read log. Reads inside summarised loops whose bound needs an inductive invariant, or whose "
+             "proof exceeds the per-proof time budget, are listed as undecided in the evidence, not claimed.",
+        technique=TECH + "; read-extent (declared-length) and independence dataflow rules over the read log and the abstract heap"),
+    "C10": dict(
+        text="Static analysis: public decoders are discovered by signature and cross-checked against a catalogue; each is abstractly "
+             "interpreted with callees inlined. From the raise log every feasible explicit raise and every modelled may-raise "
+             "operation (enum cast, decode, assert, dict lookup, attribute of a possibly-None value) must be a documented class; "
+             "from the read log every index and struct.unpack on an octet string is proven in bounds from the guard facts with exact "
+             "slice-clamping axioms (IndexError / struct.error cannot occur); refutations only with a concrete octet string; each "
+             "summarised decoder loop must strictly advance a cursor.",
+        note="Trusted: the interpreter's may-raise model. In-bounds proofs for reads inside summarised loops are attempted and, where "
+             "they would need an inductive invariant, listed as undecided (the NAK pair-size guard that protects the one loop with "
+             "two reads per iteration is checked as a modulus rule in C06). TypeError from wrongly typed non-octet arguments is "
+             "outside the property.",
+        technique=TECH + "; exception-escape analysis over the raise log; loop progress (termination) rule"),
 }
 
 NOT_CLAIMED = {}
